@@ -87,3 +87,19 @@ check(
     "DESIGN.md section 3 C08",
     "gridlab",
 )
+
+ENGINES[-1]["serves_properties"].append("C03")
+check(
+    "C03",
+    "exploration",
+    "Brxy/Bzxy/Bpxy/Btxy/Bxy/pressure at centre, xlow and ylow of generated grids are compared with the harness' own "
+    "interpolant and the generating profile cubics (incl. reverse_current / reverse_Bt / psi_divide_twopi variants and "
+    "disconnected double nulls whose profile extends beyond both separatrices, so the per-leg reflection is observable); "
+    "psi_axis/psi_bdry/Bt_axis against the harness' own critical-point search; a Hypothesis unit stratum checks the "
+    "documented exponential continuation of extrapolated profiles.",
+    "Trusted base: harness interpolant and profile cubics; tolerances 1e-9 relative for fields, scalars from "
+    "xpoint_refine_atol and the reference Hessian.",
+    "generated-grid PBT with reference-field oracle + Hypothesis unit PBT",
+    "DESIGN.md section 3 C03",
+    "gridlab",
+)
